@@ -3,8 +3,8 @@
    Two layers for the window bitmap:
    - [mbit]/[mset]/[mlsh]: the bitmap as one non-negative integer (used by the
      detectors below and by the proofs);
-   - [fbi_*]: the bitmap as the Go code stores it, a list of 64-bit words with the
-     word-by-word shift of fixedBigInt.Lsh (Words.v proves the two agree).
+   - ReplayDetector/Words.v: the bitmap as the Go code stores it, a list of 64-bit words with the
+     word-by-word shift of fixedBigInt.Lsh, proved to compute [mbit]/[mset]/[mlsh].
 
    Go's uint/uint64 arithmetic is written with explicit [u64], int64 with [i64]. *)
 From Tx Require Import Common.Base.
